@@ -517,6 +517,10 @@ class Server(base_server.BaseServer):
     def _handle_connect(self, eio_sid, namespace, data):
         """Handle a client connection request."""
         namespace = namespace or '/'
+        if eio_sid not in self.environ:
+            # the transport has already ended (Engine.IO hands over every
+            # packet of a polling payload, also those that follow a CLOSE)
+            return
         sid = None
         if namespace in self.handlers or namespace in self.namespace_handlers \
                 or self.namespaces == '*' or namespace in self.namespaces:
